@@ -1321,3 +1321,108 @@ class attrspec_set_background:
     def on_raise(old, s, a, exc):
         yield "word-unchanged-when-rejected", word(s) == word(old)
         yield from rejected_part_clauses(word(old), a.background)
+
+
+# ---- the foreground setter: a loop over the comma-separated parts -------------------------------------------
+# str.split(",") / str.strip() are modelled abstractly: split gives m >= 1 parts, each some str without a comma;
+# strip of part j gives some str no longer than it (which characters count as blank is left open).  The stripped
+# parts are the only thing the loop looks at; they are kept as a ghost sequence for the invariant and the
+# postconditions ("part j").
+
+
+def fg_str_method(ip, st, s, name, args, kwargs):
+    if name == "split" and args == [","] and not kwargs:
+        m = st.fresh_int("nparts")
+        st.assume(m >= 1)
+        fam = st.fresh_name("part")
+        ln = z3.Function(fam + "$len", z3.IntSort(), z3.IntSort())
+        code = z3.Function(fam + "$code", z3.IntSort(), z3.IntSort(), z3.IntSort())
+        sln = z3.Function(fam + "$slen", z3.IntSort(), z3.IntSort())
+        scode = z3.Function(fam + "$scode", z3.IntSort(), z3.IntSort(), z3.IntSort())
+
+        def mk(lenf, codef, j, stripped):
+            zj = V._z(j)
+
+            def at(k):
+                e = codef(zj, V._z(k))
+                cur().assume(z3.And(e >= 0, e < MAX_CODE, e != 44))
+                return mk_int(e)
+
+            n = lenf(zj)
+            cur().assume(z3.And(n >= 0, sln(zj) <= ln(zj)))
+            r = CStr(mk_int(n), at)
+            if not stripped:
+                r.strip_result = lambda: mk(sln, scode, j, True)
+            return r
+
+        st.ghost["c18_parts"] = (m, lambda j: mk(sln, scode, j, True))
+        return Q.LRef(Q.SSeq(m, lambda j: mk(ln, code, j, False), None, None, "parts"))
+    if name == "strip" and not args and hasattr(s, "strip_result"):
+        return s.strip_result()
+    return NotImplemented
+
+
+def is_setting(s):
+    return either(*[cs_eq(s, nm) for nm in SETTING_NAMES])
+
+
+def only_fg_flag_bits(fl):
+    own = {bit_index(n) for n in FG_OWN}
+    return both(*[p == 0 for i, p in enumerate(fl.parts) if i not in own])
+
+
+def fg_kinds(v):
+    return flag(v, "_FG_BASIC_COLOR"), flag(v, "_FG_HIGH_COLOR"), flag(v, "_FG_TRUE_COLOR")
+
+
+def at_most_one_colour_part(upto, part):
+    """Among the parts below `upto`, at most one is not a setting."""
+    return forall(0, upto, lambda j: forall(0, upto, lambda k: implies(both(neg(is_setting(part(j))), neg(is_setting(part(k)))), j == k)))
+
+
+def _fg_loop_inv(v):
+    st = cur()
+    fl = BitWord.lift(st, v.flags)
+    cn, cv = opt_parts(v.color)
+    w = word(v.self)
+    _m, part = st.ghost["c18_parts"]
+    yield "flags-holds-foreground-flag-bits-only", only_fg_flag_bits(fl)
+    yield "the-word-is-not-touched-inside-the-loop", w == word(v.at_entry.self)
+    yield "no-colour-yet-means-no-kind-flag", implies(cn, both(*[neg(k) for k in fg_kinds(fl)]))
+    yield "a-colour-fits-its-kind-and-the-declared-depth", implies(neg(cn), both(0 <= cv, cv < 2**24, side_wf(w, *fg_kinds(fl), cv)))
+    yield "no-colour-yet-means-only-settings-so-far", implies(cn, forall(0, v.i_, lambda j: is_setting(part(j))))
+    yield "one-colour-part-so-far", at_most_one_colour_part(v.i_, part)
+
+
+@contract(DC + "AttrSpec.__set_foreground", property="C18", replayable=False)
+class attrspec_set_foreground:
+    self_shape = SPEC
+    params = dict(foreground=Str())
+    raises = (ATTRSPEC_ERROR,)
+    modifies = (WORD,)
+    setup = staticmethod(tables_setup)
+    call_real = staticmethod(cstr_call_real)
+    str_method = staticmethod(fg_str_method)
+    branch_timeout_ms = 400  # the path conditions carry quantifiers: an undecided feasibility check keeps the branch (sound)
+    loops = {0: Loop(invariant=_fg_loop_inv, shapes={"color": Opt(Int), "flags": WordShape()})}
+
+    def requires(s, a):
+        return mode_ok(word(s))
+
+    def ensures(old, s, a, result):
+        v0, v1 = word(old), word(s)
+        yield "only-the-foreground-bit-fields-change", same_outside(v1, v0, FG_OWN, (FG,))
+        fresh = neg(flag(v0, "_FG_TRUE_COLOR"))  # the one foreground bit the setter never clears (as in __init__: the word is new)
+        yield "the-foreground-side-is-well-formed", implies(fresh, side_wf(v1, *fg_kinds(v1), fg_number(v1)))
+        st = cur()
+        if "c18_parts" in st.ghost and not st.ghost.get("c18_callee"):
+            m, part = st.ghost["c18_parts"]
+            yield "accepted-only-with-at-most-one-colour-part", at_most_one_colour_part(m, part)
+
+    def ensures_callee(old, s, a, result):
+        v0, v1 = word(old), word(s)
+        yield "only-the-foreground-bit-fields-change", same_outside(v1, v0, FG_OWN, (FG,))
+        yield "the-foreground-side-is-well-formed", implies(neg(flag(v0, "_FG_TRUE_COLOR")), side_wf(v1, *fg_kinds(v1), fg_number(v1)))
+
+    def on_raise(old, s, a, exc):
+        yield "word-unchanged-when-rejected", word(s) == word(old)
